@@ -40,7 +40,7 @@ def reserved_set():
 
 
 def floors(tier):
-    return {"pairs_judged": 500, "positions": 13, "collision_configs": 3, "namesake_calls": 40}
+    return {"pairs_judged": 500, "positions": 14, "collision_configs": 3, "namesake_calls": 40}
 
 
 def plan(seed, tier):
@@ -176,7 +176,7 @@ def judge(position, item, o, model, api):
             vals = [x for k, x in e["headers"] if k.lower() == "x-goog-request-params"]
         return dict(urllib.parse.parse_qsl(vals[0], keep_blank_values=True)) if vals else {}
 
-    if position in ("field", "flat", "flat_dotted", "path", "path_dotted", "path_dotted_parent", "body", "query", "query_required", "routing", "routing_nested"):
+    if position in ("field", "flat", "flat_dotted", "path", "path_dotted", "path_dotted_parent", "body", "body_plain_uri", "query", "query_required", "routing", "routing_nested"):
         if o.get("attr") != w_:
             bad("attribute-name", f"field {w!r}: reachable attribute is {o.get('attr')!r}, expected {w_!r}")
     g = grpc_req()
@@ -241,7 +241,9 @@ def judge(position, item, o, model, api):
         for tr, e in (("grpc", ge), ("rest", r)):
             if header(e, tr) != {f"{w}.other": "things/x"}:
                 bad("routing-key", f"{tr}: {header(e, tr)} expected key '{w}.other'")
-    elif position == "body":
+    elif position in ("body", "body_plain_uri"):
+        if position == "body_plain_uri" and path != f"/v1/plain/b{item['i']}":
+            bad("http-path", path)
         sub = getattr(gm, w)
         if sub.other != "o" or getattr(sub, w) != "n1":
             bad("wire-field", f"server decoded {str(gm)[:160]!r}")
@@ -297,8 +299,10 @@ def judge(position, item, o, model, api):
     elif position == "file":
         if o.get("module") != w + "_":
             bad("module-name", f"types module {o.get('module')!r}, expected {w + '_'!r}")
-        if gm.held.value != "h1":
+        if gm.held.value != "h1" or [x.value for x in gm.held_again] != ["h2"] or getattr(gm, w) != "kv":
             bad("wire-field", f"server decoded {str(gm)[:160]!r}")
+        if o.get("same_named_field_attr") != (w + "_" if w in reserved_set() else w):
+            bad("field-attribute-name", f"field {w!r} reachable as {o.get('same_named_field_attr')!r}")
     return v
 
 
@@ -588,7 +592,7 @@ def in_runner(script):
                 iw = [a for a in (w, w + "_") if _has_field(Inner(), a)][0]
                 req = Req(**{w_: Inner(**{"other": "things/x", iw: "n1"})})
                 name = "call%d" % it["i"]
-            elif pos == "body":
+            elif pos in ("body", "body_plain_uri"):
                 Inner = lib.msg_cls(it["inner"])
                 iw = [a for a in (w, w + "_") if _has_field(Inner(), a)][0]
                 req = Req(**{"anchor": "anchors/a", "extra": "e1", w_: Inner(**{"other": "o", iw: "n1"})})
@@ -622,7 +626,9 @@ def in_runner(script):
                         pass
                 o["module"] = "|".join(mods) if mods else None
                 Held = lib.msg_cls(it["msg"])
-                req = Req(anchor="anchors/a", held=Held(value="h1"))
+                attr = w + "_" if (w + "_") in Req._meta.fields else w
+                o["same_named_field_attr"] = attr
+                req = Req(anchor="anchors/a", held=Held(value="h1"), held_again=[Held(value="h2")], **{attr: "kv"})
                 name = "use_file%d" % it["i"]
             for tr, client, server in (("grpc", gc, srv), ("rest", rc, http)):
                 mark = server.mark()
